@@ -98,12 +98,17 @@ class Check(FormulaCheck):
         m = mp()
         rec = self.rec
         if how == 'text':
-            lit = hx.numlit(abs(x)) if isinstance(x, (int, float)) and not isinstance(x, bool) else None
-            if lit is None:
+            if not isinstance(x, (int, float)) or isinstance(x, bool) or x != x:
                 return
-            v = ('-' if x < 0 else '') + lit
-            if float(v) != x:
+            # numeric text in the spellings python/excel hosts produce: repr, %e, %E, fixed, explicit sign, surrounding spaces
+            forms = [repr(x), '%e' % x, '%.10E' % x, '%.17g' % x, ('+' if x >= 0 else '') + repr(x), ' ' + repr(x) + ' ', '%.6f' % x]
+            v = forms[self.textform % len(forms)]
+            self.textform += 1
+            try:
+                x = float(v) if ('.' in v or 'e' in v.lower()) else int(v)
+            except ValueError:
                 return
+            self.rec.cov('numeric_text_forms', 'exp+' if 'e+' in v.lower() else ('exp-' if 'e-' in v.lower() else ('sign' if v.strip()[:1] == '+' else ('spaces' if v != v.strip() else 'plain'))))
         elif how == 'logical':
             v = bool(x)
             x = int(v)
@@ -131,6 +136,7 @@ class Check(FormulaCheck):
 
     def c_functions(self, spec, rec):
         rnd = self.rng(spec)
+        self.textform = spec['i']
         T = table()
         m = mp()
         for _ in range(spec['n']):
@@ -138,8 +144,9 @@ class Check(FormulaCheck):
                 x = self.arg(rnd, tag)
                 self.judge_call(fn, x, ref_fn, dom)
                 k = rnd.random()
-                if k < 0.15:
+                if k < 0.18:
                     self.judge_call(fn, x, ref_fn, dom, 'text')
+                    self.judge_call(fn, self.arg(rnd, 'any') * rnd.choice([1, 1e10, 1e17, 1e-12]), ref_fn, dom, 'text')
                 elif k < 0.2:
                     self.judge_call(fn, rnd.choice([0, 1]), ref_fn, dom, 'logical')
                 elif k < 0.25:
@@ -276,6 +283,11 @@ class Check(FormulaCheck):
 
     def c_sentinels(self, spec, rec):
         ev = self.ev
+        self.textform = 0
+        for f, ref in (('SQRT("1e+20")', 1e10), ('ABS("6.02E+23")', 6.02e23), ('LN("1e-7")', math.log(1e-7)), ('ABS("+3")', 3), ('ABS(" 12 ")', 12), ('POWER("1E+2","5e-1")', 10),
+                       ('PV("5e-2","1e+1","-1e+2")', 772.1734929184813)):
+            g = ev(f)
+            self.expect('C16/numeric-text-not-accepted-as-number', finite(g) and abs(g - ref) <= 1e-9 * max(1, abs(ref)), formula=f, got=g, expected=ref)
         g = ev('ATAN2(1,0)')
         self.expect('C16/ATAN2:angle-of-point:on-an-axis', finite(g) and abs(g) < 1e-12, formula='ATAN2(1,0)', got=g)
         g = ev('ATAN2(-1,0)')
